@@ -185,8 +185,17 @@ func sortedAfterDepth(info *types.Info, list []ast.Stmt, i int, xs types.Object,
 		}
 		// sort.Sort(T(xs)) / sort.Stable(T(xs)) with a named slice type whose Less is ascending
 		if fn.Pkg().Path() == "sort" && (fn.Name() == "Sort" || fn.Name() == "Stable") && len(call.Args) == 1 && curCtx != nil {
-			if conv, ok := unparen(call.Args[0]).(*ast.CallExpr); ok && len(conv.Args) == 1 {
-				if id, ok := unparen(conv.Args[0]).(*ast.Ident); ok && info.ObjectOf(id) == xs {
+			// … or sort.Sort(xs) where xs itself is declared with that named type
+			arg := unparen(call.Args[0])
+			var inner ast.Expr
+			if conv, ok := arg.(*ast.CallExpr); ok && len(conv.Args) == 1 {
+				inner = unparen(conv.Args[0])
+			} else if _, ok := arg.(*ast.Ident); ok {
+				inner = arg
+			}
+			if inner != nil {
+				conv := arg
+				if id, ok := inner.(*ast.Ident); ok && info.ObjectOf(id) == xs {
 					if tn := namedOf(info.TypeOf(conv)); tn != nil {
 						if less := methodOf(tn, "Less"); less != nil {
 							if lfd := curCtx.funcDecl(less); lfd != nil && lfd.Recv != nil && len(lfd.Recv.List) == 1 && len(lfd.Recv.List[0].Names) == 1 {
